@@ -435,7 +435,40 @@ def c14_queries(tier):
     return qs
 
 
+def c18_queries(tier):
+    K = 4 if tier == 'quick' else 6
+    qs = []
+    for b in ('idn2', 'idn', 'idnkit'):
+        qs.append(single_query('C18', b))
+        h = history_query('C18', K, b, timeout=3000)
+        if b == 'idnkit':
+            h.covers = h.covers + ['context-recreated'] if K >= 5 else h.covers
+            h.optional_covers.append('context-recreated')
+        qs.append(h)
+        qs.append(uninit_query('C18', b))
+        u = utf8dom_query('C18', 8, 8, b)
+        if b == 'idnkit':
+            u.covers = [c for c in u.covers if c != 'fault-with-buffer']
+        qs.append(u)
+        e = email_query('C18' + b, 3, 16 if tier == 'quick' else 32, covers=['end', 'idn-error', 'accepted-hostname', 'tld-class', 'accepted-literal'])
+        e.repo = ['partial/%s/is_6531_email.c' % b, 'src/eav.c']
+        e.idn = None if b == 'idn2' else b
+        qs.append(e)
+    return qs
+
+
 PROPS = {
+    'C18': {
+        'queries': c18_queries,
+        'level': 'model_checking',
+        'outside': ['the real libidn / idnkit (not installed): their API is declared by thin adapter headers (stubs/adapter_idn, stubs/adapter_idnkit) '
+                    'and all three backends are driven by the same converter stub'],
+        'assumptions': ['adapter contracts: idna_to_ascii_lz as K1; idn_res_encodename writes a NUL-terminated string of < tolen bytes on success; '
+                        'idn_resconf_create/destroy allocate/release one context'],
+        'explanation': 'the three partial/<backend> source sets pass the same Layer B/C harnesses with the same assertions, which determine every '
+                       'output as a function of the stub answers: hence identical decisions; idnkit contexts are heap objects so a double destroy, '
+                       'a use after destroy or a missing destroy is a memory-safety/leak failure',
+    },
     'C14': {
         'queries': c14_queries, 'pre': pre.c14_pre,
         'level': 'model_checking',
